@@ -1656,11 +1656,12 @@ def cast_cases(run: Run, impl: Impl) -> None:
                             ref = float_ref(t, src) if not (kind == 'dbl') else float_ref(t, repr(val))
                             if kind == 'dec' and val == 0:
                                 ref = 0.0          # xs:decimal has no negative zero: through the canonical form '0'
-                            # interim finding F10nz (repair on fix-c10-8): decimal source, value zero, negative sign, float/double target
-                            tags_nz = ['F10nz'] if (kind == 'dec' and val == 0 and val.is_signed() and fhex(r) == fhex(-0.0)) else []
+                            # finding F10nn: fn:number of an xs:decimal zero with a negative Python sign answers -0.0
+                            tags_nn = ['F10nn'] if (name.startswith('number') and kind == 'dec' and val == 0 and val.is_signed()
+                                                    and fhex(r) == fhex(-0.0)) else []
                             if fhex(ref) != fhex(r):
                                 run.disagree(Disagreement(dict(case, path=name), impl=fhex(r), model=fhex(ref), spec=fhex(ref),
-                                                          what='cast-double-value', site='get_double / Float.__new__', tags=tags_nz))
+                                                          what='cast-double-value', site='get_double / Float.__new__', tags=tags_nn))
                             if mm == 'ok:dbl:num':
                                 raw = norm = 'ok:dbl:num'
                         except (ValueError, OverflowError):
